@@ -1,6 +1,9 @@
 import ALock.Lemmas.RwLockWord
 import ALock.Lemmas.AtomicRwLock
 import ALock.Lemmas.AtomicRwLockHB
+import ALock.Lemmas.AtomTraceRw
+import ALock.Lemmas.Accept
+import ALock.Props.C01
 
 /-!
 # C02 — RwLock: many readers xor one writer, at most one upgradable reader
@@ -160,3 +163,48 @@ example :
     s.ags = [.pu, .r, .r] ∧ s.state = 5 := by decide
 
 end ALock.Atomic.RwLock
+
+namespace ALock.RwLock
+
+/-- **C02 (the word arithmetic of the model is what the recorded atomic operations compute).**
+`stepAtoms s op` is the list of atomic operations on the two words of a `RawRwLock` (`w = 0`:
+`state`, `w = 1`: the inner mutex) that the differential check compares with what the real crate
+executed.  For every state and operation, on each word: replaying the list is consistent and ends
+in the model's new value of that word. -/
+theorem C02_step_atoms (s : Sys) (op : Op) :
+    Atom.wordOK 0 s.state (next s op).state (stepAtoms s op) ∧
+    Atom.wordOK 1 s.m.st (next s op).m.st (stepAtoms s op) :=
+  step_atoms_words s op
+
+/-- the same for every history -/
+theorem C02_run_atoms (ops : List Op) :
+    Atom.wordOK 0 0 (run {} ops).state (runAtoms {} ops) ∧
+    Atom.wordOK 1 0 (run {} ops).m.st (runAtoms {} ops) :=
+  run_atoms_words {} ops
+
+/-- non-vacuity: a read lock, a refused `try_write` (which takes and releases the inner mutex), the
+read unlock -/
+example :
+    runAtoms {} [.try_ 1 .read false, .try_ 2 .write false, .dropGuard 1] =
+      [ld "Acquire" 0, casR 0 0] ++ (onW 1 [cas01 0] ++ [cas0W 2] ++ onW 1 [fsub1 1]) ++ [fsubR 2 2] := by
+  decide
+
+end ALock.RwLock
+
+namespace ALock.Accept.RwLock
+open ALock.Atomic.RwLock
+
+/-- **C02 (executions of the real crate with injected preemptions).** An accepted trace is a run of
+the atomic-granularity RwLock model (and, on the inner mutex's word, of the Mutex model): at its
+end at most one agent has write access and then nobody has read access, and at most one agent
+holds an upgradable guard; the inner mutex has at most one holder. -/
+theorem C02_accepted (n : Nat) (tr : List TEv) (st' : St)
+    (h : acceptAll (init n) tr = .ok st') :
+    writers st'.sys.ags ≤ 1 ∧ (1 ≤ writers st'.sys.ags → readers st'.sys.ags = 0) ∧
+    upgradables st'.sys.ags ≤ 1 ∧ ALock.Atomic.Mutex.holders st'.mx ≤ 1 := by
+  obtain ⟨⟨l, e⟩, ⟨m, f⟩⟩ := accepted_reachable h
+  rw [e, f]
+  obtain ⟨a, b, c⟩ := ALock.Atomic.RwLock.C02_interleaved l
+  exact ⟨a, b, c, (ALock.Atomic.Mutex.C01_interleaved _ m).1⟩
+
+end ALock.Accept.RwLock
